@@ -54,11 +54,16 @@ def make_sync_manager(channel, write_only=False, logger=None,
             self.chan.publish(pickle.dumps(data), self)
 
         def _listen(self):
+            if getattr(self, '_stopped', False):
+                # the real _thread loop restarts _listen() for ever; after
+                # stop() the service thread is ended instead of leaked
+                raise SystemExit
             self.listen_calls += 1
             while True:
                 self.idle.set()
                 item = self.inbox.get()
                 if item is StopIteration:
+                    self._stopped = True
                     return
                 idx, raw = item
                 if idx in self.listen_faults:
